@@ -388,6 +388,67 @@ def observable_rule(chk, src):
     kept = f"{norm}[{norm}>0]"
     chk.ob("observable-cache", "calc_vn_entropy = - sum p ln p over the positive, normalised eigenvalues", repr(out) == f"-(sum(({kept})*(log({kept}))))", fe.where, repr(out), "-(sum(q * log(q))) with q = p/sum(p) restricted to q > 0",
            line=fe.node.lineno, detail="entropy of a spectrum: normalise, drop zeros (0 ln 0 = 0), natural logarithm, minus sign")
+    # 4. entropy of a reduced density matrix: the spectrum handed to calc_vn_entropy is that of the (complex Hermitian) matrix itself
+    fdm = src.func("renormalizer/utils/utils.py", "calc_vn_entropy_dm")
+    import sympy as _sp
+    handed, spectra = [], []
+
+    class Rho(Sym):
+        """c1 * rho + c2 * conj(rho) of a Hermitian rho (transposition and conjugation both exchange the two), as a square matrix or with split indices"""
+        def __init__(self, c1=1, c2=0, shape=(2, 3, 2, 3)):
+            super().__init__(f"({c1})*rho + ({c2})*conj(rho)")
+            self.c1, self.c2, self.shape, self.ndim = _sp.sympify(c1), _sp.sympify(c2), tuple(shape), len(shape)
+
+        def reshape(self, *sh):
+            sh = tuple(sh[0]) if len(sh) == 1 and isinstance(sh[0], (tuple, list)) else tuple(sh)
+            return Rho(self.c1, self.c2, sh)
+
+        def _k(self, o):
+            if isinstance(o, (int, float)):
+                return _sp.nsimplify(o)
+            raise AnalysisError(f"density matrix combined with {o!r}")
+
+        def __mul__(self, o):
+            return Rho(self.c1 * self._k(o), self.c2 * self._k(o), self.shape)
+
+        __rmul__ = __mul__
+
+        def __truediv__(self, o):
+            return Rho(self.c1 / self._k(o), self.c2 / self._k(o), self.shape)
+
+        def __add__(self, o):
+            if not isinstance(o, Rho):
+                raise AnalysisError(f"density matrix + {o!r}")
+            return Rho(self.c1 + o.c1, self.c2 + o.c2, self.shape)
+
+        @property
+        def T(self):
+            return Rho(self.c2, self.c1, self.shape[::-1])
+
+        def transpose(self, *a):
+            return self.T
+
+        def conj(self):
+            return Rho(_sp.conjugate(self.c2), _sp.conjugate(self.c1), self.shape)
+
+        conjugate = conj
+
+    def eig(a, **k):
+        handed.append(a)
+        return Sym("spectrum of the matrix handed in"), Sym("eigenvectors")
+
+    def eigvals(a, **k):
+        handed.append(a)
+        return Sym("spectrum of the matrix handed in")
+    prod = lambda xs: 6 if tuple(xs) == (2, 3) else _sp.prod(xs)       # noqa: E731
+    it4 = SymInterp(src, None, {"np": OpenSym("np", make=lambda t: Sym(t), prod=prod), "scipy": Sym("scipy", linalg=Sym("linalg", eigh=eig, eigvalsh=eigvals, eig=eig, eigvals=eigvals)),
+                                "calc_vn_entropy": lambda w: spectra.append(w) or Sym("entropy")})
+    out4 = it4.call_function(fdm, [Rho()])
+    ok4 = len(handed) == 1 and isinstance(handed[0], Rho) and _sp.simplify(handed[0].c1 - 1) == 0 and _sp.simplify(handed[0].c2) == 0 and handed[0].shape == (6, 6) \
+        and len(spectra) == 1 and repr(spectra[0]) == "spectrum of the matrix handed in" and repr(out4) == "entropy"
+    chk.ob("observable-cache", "calc_vn_entropy_dm: entropy of the spectrum of the reduced density matrix itself", ok4, fdm.where, {"diagonalised": [repr(h) + f" as {getattr(h, 'shape', None)}" for h in handed]},
+           "(1)*rho + (0)*conj(rho) as a (dim, dim) matrix", line=fdm.node.lineno,
+           detail="a reduced density matrix of a complex state is complex Hermitian: rho^T is its complex conjugate, so (rho + rho^T)/2 is only its real part and has another spectrum")
 
 
 
